@@ -246,18 +246,32 @@ def class_src(c, all_specs):
     kind = c.get('kind', 'obj')
     bases = list(c.get('bases', []))
     L = []
+    mix = list(c.get('mixins', []))
+    if kind == 'mixin':
+        # a plain helper class carrying only hooks (never registered)
+        L.append('class %s:' % name)
+        L.append('    _yv_mixin = True')
+        if c.get('sweeten') is not None:
+            L += _sweeten_src(name, c['sweeten'])
+        if c.get('savorize') is not None:
+            L += _savorize_src(name, c['savorize'])
+        if c.get('recognize') is not None:
+            L += _recognize_src(name, c['recognize'])
+        return L
     if kind == 'enum':
-        L.append('class %s(enum.Enum):' % name)
+        L.append('class %s(%s):' % (name, ', '.join(mix + ['enum.Enum'])))
         for i, m in enumerate(c['members']):
             L.append('    %s = %d' % (m, i + 1))
-        if c.get('sweeten'):
+        if c.get('sweeten') is not None:
             L += _sweeten_src(name, c['sweeten'])
-        if c.get('savorize'):
+        if c.get('savorize') is not None:
             L += _savorize_src(name, c['savorize'])
         return L
     if kind in ('strsub', 'userstring', 'ystring'):
         base = {'strsub': 'str', 'userstring': 'UserString', 'ystring': 'yatiml.String'}[kind]
-        L.append('class %s(%s):' % (name, ', '.join(bases + [base]) if not bases else ', '.join(bases)))
+        own = (bases + [base]) if not bases else list(bases)
+        own = (mix + own) if c.get('mix_first', True) else (own + mix)
+        L.append('class %s(%s):' % (name, ', '.join(own)))
         L.append('    _yv_strlike = %r' % name)
         if kind == 'strsub':
             L.append('    def __init__(self, value) -> None:')
@@ -277,9 +291,9 @@ def class_src(c, all_specs):
             L.append('    def __repr__(self): return "%s(%%r)" %% (self.value,)' % name)
             L.append('    def __eq__(self, o): return type(o) is type(self) and o.value == self.value')
             L.append('    def __hash__(self): return hash(self.value)')
-        if c.get('sweeten'):
+        if c.get('sweeten') is not None:
             L += _sweeten_src(name, c['sweeten'])
-        if c.get('savorize'):
+        if c.get('savorize') is not None:
             L += _savorize_src(name, c['savorize'])
         return L
     # ordinary class
